@@ -225,6 +225,7 @@ type Val struct {
 	Obj  types.Object // KPtrVar target
 	Fn   *FuncVal
 	Sort string // for KRaw
+	Heap map[string]string // spec-only: a slice value frozen to a heap snapshot (result of old(slice))
 }
 
 type FuncVal struct {
